@@ -795,6 +795,11 @@ class Manager:
         # TODO: Refactor this method.
 
         value = None
+        # Events fired by this step are effects of the task's event, just as
+        # if one of its handlers had fired them while being dispatched.
+        handling, flushing = self._currently_handling, self._flushing_thread
+        self._currently_handling = event
+        self._flushing_thread = current_thread()
         try:
             value = next(task)
             if isinstance(value, CallValue):
@@ -881,6 +886,9 @@ class Manager:
             # that was suspended on it (it will never be resumed).
             event.waitingHandlers = max(0, event.waitingHandlers - (2 if parent else 1))
             self._eventDone(event, err)
+        finally:
+            self._currently_handling = handling
+            self._flushing_thread = flushing
 
     def tick(self, timeout=-1):
         """
